@@ -700,7 +700,10 @@ def reserved_names(ctx):
                                   "oracle.render_entries")
                 # model
                 if ename.startswith("include"):
-                    continue        # runtime._include_file is not a render entry point of the model
+                    # runtime._include_file: the model follows the regenerated fact whether its kwargs are checked
+                    reqs.append("names entry include %d 0 _ %s" % (0 if el is False or el == "page" else 1, Mo.enc_names([name])))
+                    metas.append((ename, name, str(el), got, str(exc)))
+                    continue
                 kw = "kwargs" in ename
                 fresh = not (ename.endswith("-reused") or ename.endswith("-nested"))
                 mentry = ("def.render_context" if ename.startswith("def.") else "render_context") if kw else ename
